@@ -35,61 +35,25 @@ def check(model, rep):
     if ij is None:
         raise AnalysisError('anchor vanished: SP.inverseJacobian')
     rep.rule('R11.1', 'row i = [q_i x n_i ; n_i], q_i = bottom joint i, n_i = unit(top joint i - bottom joint i)')
-    loops = [n for n in ij.body() if isinstance(n, ast.For)]
-    if len(loops) != 1:
-        raise AnalysisError('inverseJacobian: leg loop not recognised')
-    lp = loops[0]
-    i = lp.target.id
-    il = Inliner(ij)
-    R = {i: 'I'}
-    rep.ob('R11.1', ij, 'six legs', src(lp.iter).replace(' ', '') == 'range(6)', 'loop ranges over %s' % src(lp.iter), line=lp.lineno)
-    rets = [n for n in walk_own(ij.node) if isinstance(n, ast.Return)]
-    colst = [n for n in lp.body if isinstance(n, ast.Assign) and isinstance(n.targets[0], ast.Subscript) and isinstance(n.targets[0].value, ast.Name)]
-    N_TXT = 'fmr.Normalize(self._top_joints_space[:,I]-self._bottom_joints_space[:,I])'
-    Q_TXT = 'self._bottom_joints_space[:,I]'
-    n_got = q_got = col_got = '?'
-    mat = None
-    if len(colst) == 1:
-        mat = colst[0].targets[0].value.id
-        vt = il.tree(colst[0].value, roles=R)
-        col_got = il.text(colst[0].value, roles=R)
-        if isinstance(vt, ast.Call) and norm_text(vt.func) in ('np.hstack', 'np.concatenate') and len(vt.args) == 1 and isinstance(vt.args[0], (ast.Tuple, ast.List)) \
-                and len(vt.args[0].elts) == 2:
-            mom, n_got = vt.args[0].elts[0], norm_text(vt.args[0].elts[1])
-            if isinstance(mom, ast.Call) and norm_text(mom.func) == 'np.cross' and len(mom.args) == 2:
-                q_got = norm_text(mom.args[0])
-                col_ok = norm_text(mom.args[1]) == n_got
-            else:
-                col_ok = False
-        else:
-            col_ok = False
-    else:
-        col_ok = False
-    rep.ob('R11.1', ij, 'n_i = Normalize(top_i - bottom_i)', n_got == N_TXT, 'leg direction is %s' % n_got, line=lp.lineno)
-    rep.ob('R11.1', ij, 'q_i = bottom joint i', q_got == Q_TXT, 'moment arm is %s' % q_got, line=lp.lineno)
-    rep.ob('R11.1', ij, 'column = [q x n ; n]', col_ok, 'Plucker coordinates are %s' % col_got[:200], line=lp.lineno)
-    rep.ob('R11.1', ij, 'stored as column i of the transpose', len(colst) == 1 and norm_text(colst[0].targets[0].slice).strip('()') == ':,%s' % i
-           and [norm_text(d) for d in il.defs(mat)] == ['np.zeros((6,6))'],
-           'column store is %s' % [src(n.targets[0]) for n in colst], line=lp.lineno)
-    ret_t = il.text(rets[0].value, roles={mat: 'M'} if mat else None) if rets else '?'
-    rep.ob('R11.1', ij, 'returns the transpose (rows = legs)', len(rets) == 1 and ret_t in ('M.T', 'M.transpose()', 'np.transpose(M)'), 'returned matrix is %s' % ret_t)
-    # geometry evaluated at the requested poses: IK(requested) before the loop, IK(saved) after; the saved poses are read before the first IK
-    iks = sorted((c for c in walk_own(ij.node) if isinstance(c, ast.Call) and src(c.func) == 'self.IK'), key=lambda c: c.lineno)
-    ok = len(iks) == 2 and iks[0].lineno < lp.lineno < iks[1].lineno
-    why = 'two IK calls bracketing the row loop expected, found %d' % len(iks)
-    if ok:
-        kw = {k.arg: k.value for k in iks[1].keywords}
-        for arg, getter in (('top_plate_pos', 'self.getTopT()'), ('bottom_plate_pos', 'self.getBottomT()')):
-            v = kw.get(arg)
-            if not (isinstance(v, ast.Name) and il.single(v.id) is not None and norm_text(il.single(v.id)) == getter
-                    and il.bind[v.id][0][2].lineno < iks[0].lineno):
-                ok = False
-                why = 'the pose restored as %s is not the value of %s read before the geometry was moved (%s)' % (arg, getter, src(v) if v is not None else 'missing')
-        kw0 = {k.arg: norm_text(k.value) for k in iks[0].keywords}
-        if ok and not (kw0.get('top_plate_pos') == 'top_plate_pos' and kw0.get('bottom_plate_pos') == 'bottom_plate_pos' and {'top_plate_pos', 'bottom_plate_pos'} <= set(ij.params)):
-            ok = False
-            why = 'the geometry is not evaluated at the requested poses: IK(%s)' % kw0
-    rep.ob('R11.1', ij, 'poses saved, IK(requested) ... rows ... IK(saved)', ok, 'save / evaluate / restore bracket not recognised: ' + why)
+    from ..engine import tv as _tv
+    tp_, bp_, pr_ = ij.params[1], ij.params[2], ij.params[3]
+    ok, why = _tv.fi_matches_spec(model, ij, """
+        def inverseJacobian(self, %s=None, %s=None, %s=True):
+            %s, %s = self._bottomTopCheck(%s, %s)
+            saved_bottom = self.getBottomT()
+            saved_top = self.getTopT()
+            self.IK(top_plate_pos = %s, bottom_plate_pos = %s, protect = %s)
+            rows = np.zeros((6, 6))
+            for i in range(6):
+                n = fmr.Normalize(self._top_joints_space[:, i] - self._bottom_joints_space[:, i])
+                q = self._bottom_joints_space[:, i]
+                rows[i, 0:3] = np.cross(q, n)
+                rows[i, 3:6] = n
+            self.IK(top_plate_pos = saved_top, bottom_plate_pos = saved_bottom, protect = %s)
+            return rows
+        """ % (tp_, bp_, pr_, bp_, tp_, bp_, tp_, tp_, bp_, pr_, pr_), cell_shape=(6, 6))
+    rep.ob('R11.1', ij, 'row i = [q_i x n_i ; n_i] with q_i = bottom joint i, n_i = unit(top_i - bottom_i), six legs; poses saved, IK(requested) '
+           '... rows ... IK(saved)', ok, 'inverseJacobian is not the Plucker-row construction inside the save / evaluate / restore bracket: ' + why)
 
     # ---------------------------------------------------------------- R11.2
     rep.rule('R11.2', 'sumActuatorWrenches: one wrench per leg with point, direction and magnitude of the same leg')
